@@ -2833,3 +2833,14 @@ def run(chk):
     # correspondence is part of the extracted formula), the four obligations on DensityFinder's own indexing always remain
     chk.floor("C-", 4)
     chk.floor("E2-argument-role", 6)
+
+
+# --- engine I (pgverif/oneshot.py): one-shot iterators handed out by the grid accessors are walked once per creation and never memoised.
+# Run first so that its reports do not depend on the idiom recognition of the rules above.
+_run_before_engine_I = run
+
+
+def run(chk):  # noqa: F811
+    from ..oneshot import attach
+    attach(chk, [(U.POISSON, {"DensityFinder"})])
+    _run_before_engine_I(chk)
